@@ -136,6 +136,10 @@ structure Cfg where
   defaultSource : Nat
   /-- `N2kMillis()` at the time of the call -/
   now : Nat
+  /-- which time stamp a decoded data frame (0x93) carries is left open by the property: `false` = the four
+  embedded time bytes (the library as it is), `true` = the local receive time `now` (as for 0x94 frames).
+  The harness learns the value from the code under test and passes it with every `rnew`. -/
+  stampLocal : Bool
 
 structure RState where
   sot : Bool       -- StartOfTextReceived
@@ -195,7 +199,8 @@ def readSrcTime (c : Cfg) (buf : List Byte) : Except Fault (Nat × Nat × Nat) :
   | .ok t =>
     if t = 0x93 then
       match bufGet buf 7, bufGet buf 8, bufGet buf 9, bufGet buf 10, bufGet buf 11 with
-      | .ok s, .ok t0, .ok t1, .ok t2, .ok t3 => .ok (s, t0 + 256 * t1 + 65536 * t2 + 16777216 * t3, 12)
+      | .ok s, .ok t0, .ok t1, .ok t2, .ok t3 =>
+        .ok (s, if c.stampLocal = false then t0 + 256 * t1 + 65536 * t2 + 16777216 * t3 else c.now, 12)
       | _, _, _, _, _ => .error .bufIndex
     else .ok (c.defaultSource, c.now, 7)
 
